@@ -324,7 +324,43 @@ func plkDeclaredLens(b []byte) []uint32 {
 	return append(out, binary.BigEndian.Uint32(b[off:]))
 }
 
+// plkPrefixOffsets returns the byte offsets of the two slice-length prefixes.
+func plkPrefixOffsets(b []byte) []int {
+	rd := bytes.NewReader(b)
+	dec := curve.NewDecoder(rd)
+	var pt curve.G1Affine
+	for i := 0; i < 8; i++ {
+		if dec.Decode(&pt) != nil {
+			return nil
+		}
+	}
+	off := int(dec.BytesRead())
+	if off+4 > len(b) {
+		return nil
+	}
+	out := []int{off}
+	l1 := binary.BigEndian.Uint32(b[off:])
+	if l1 > cvapi.MaxDeclaredLen {
+		return out
+	}
+	off += 4 + int(l1)*fr.Bytes
+	if off > len(b) {
+		return out
+	}
+	dec2 := curve.NewDecoder(bytes.NewReader(b[off:]))
+	var e fr.Element
+	if dec2.Decode(&pt) != nil || dec2.Decode(&e) != nil {
+		return out
+	}
+	off += int(dec2.BytesRead())
+	if off+4 > len(b) {
+		return out
+	}
+	return append(out, off)
+}
+
 func init() {
+	Ops.PlonkPrefixOffsets = plkPrefixOffsets
 	Ops.PlonkClone = func(p any) any { return plkClone(p.(*plk.Proof)) }
 	Ops.PlonkSingleEdits = plkSingleEdits
 	Ops.PlonkListEdits = plkListEdits
